@@ -137,6 +137,7 @@ static const char* rcs(iwrc rc) {
   if (rc == IWKV_ERROR_NOTFOUND) return "NF";
   if (rc == IWKV_ERROR_CORRUPTED_WAL_FILE) return "CORRUPTED_WAL";
   if (rc == IWKV_ERROR_CORRUPTED) return "CORRUPTED";
+  if (rc == IWKV_ERROR_BACKUP_IN_PROGRESS) return "BKP_IN_PROGRESS";
   snprintf(b, sizeof(b), "E%llu", (unsigned long long) rc);
   return b;
 }
@@ -327,6 +328,27 @@ static void exec_op(int i) {
   } else if (op[0] == 'n') {
     struct iwdb *db = 0;
     rc = iwkv_db(kv, (uint32_t) (op[1] - '0'), 0, &db); dumpit = 1;
+  } else if (op[0] == 'X' || op[0] == 'Y') {
+    // X: a second online backup (target <dir>/bkp2, pre-filled with a sentinel) - meant to be released into a
+    //    running one; Y: an ordinary backup into <dir>/bkp3 after the first one returned
+    char bp[700]; uint64_t ts = 0;
+    static const char sentinel[] = "SENTINEL-do-not-touch";
+    snprintf(bp, sizeof(bp), "%s/%s", g_dir, op[0] == 'X' ? "bkp2" : "bkp3");
+    if (op[0] == 'X') {
+      int sf = open(bp, O_WRONLY | O_CREAT | O_TRUNC, 0600);
+      if (sf >= 0) { ssize_t r = RAW_WRITE(sf, sentinel, sizeof(sentinel)); (void) r; close(sf); }
+    }
+    int was = g_bkp_active;
+    g_bkp_active = 0;
+    rc = iwkv_online_backup(kv, &ts, bp);
+    g_bkp_active = was;
+    if (op[0] == 'X') {
+      char rb[64] = { 0 };
+      int sf = open(bp, O_RDONLY);
+      ssize_t n = sf >= 0 ? read(sf, rb, sizeof(rb)) : -1;
+      if (sf >= 0) close(sf);
+      tr("X %s %lld %d\n", rcs(rc), fsize(bp), (n == (ssize_t) sizeof(sentinel) && !memcmp(rb, sentinel, sizeof(sentinel))) ? 1 : 0);
+    }
   } else if (op[0] == 'q') {
     // clean close (checkpoint on close), then leave
     rc = iwkv_close(&g_kv);
@@ -353,13 +375,14 @@ static void exec_op(int i) {
     g_bkp_active = 1;
     rc = iwkv_online_backup(kv, &ts, bp);
     g_bkp_active = 0;
+    int g_wdone_flag_at_return = g_wdone_flag; // 1: the released writer finished while the backup thread waited for it
     if (g_threaded) {
       if (!g_inj_done) { sem_post(&g_wstart); } // never triggered: run them now
       if (!g_wdone_flag) sem_wait(&g_wdone);
       pthread_join(wt, 0);
       g_inj_done = g_inj_n;
     }
-    tr("K %d %d\n", g_inj_done, g_bkp_writes);
+    tr("K %d %d %d\n", g_inj_done, g_bkp_writes, g_threaded ? g_wdone_flag_at_return : 1);
   }
   tr("E %d %s %lld %lld\n", i, rcs(rc), fsize(g_walpath), fsize(g_dbpath));
   if (dumpit && !rc && (g_flags & 2)) {
@@ -402,7 +425,9 @@ static void bkp_write_seen(void) {
 static iwrc lock_tap(bool before, void *op) {
   (void) op;
   if (g_bkp_active && before && pthread_equal(pthread_self(), g_bkp_thread)) {
-    if (++g_bkp_before_calls == 2 && g_inj_at == 0 && !g_inj_done) inject_now();
+    ++g_bkp_before_calls;
+    // B-1: before the stage-2 checkpoint (stage BKP_STARTED); B0: after the WAL_COPY1 loop
+    if (((g_bkp_before_calls == 1 && g_inj_at == -1) || (g_bkp_before_calls == 2 && g_inj_at == 0)) && !g_inj_done) inject_now();
   }
   return 0;
 }
